@@ -549,3 +549,69 @@ def h_writer_write_records(h: H):
 
 
 register(Unit(P, "WRITE-EXACT/DataFileWriter.write_records", h_writer_write_records, functions=[f"{DO}:DataFileWriter.write_records", f"{DO}:DataFileWriter.write_batch"], replay=_replay_c11))
+
+
+# ----------------------------------------------------------------------------------------------- append_files
+def h_append_files(h: H):
+    """FILE-SCHEMA (caller side): append_files queues the files only after EVERY one of them was found to exist and - on a table
+    with a persisted schema - passed the footer schema check; a rejected call queues nothing; an inactive transaction raises."""
+    c = h.ctx
+    st = Store(h)
+    st.install(h.reg)
+    active = c.flip("transaction-active")
+    tx = cp.tx_object(h, st, active=active, operations=PList([]))
+    tab = SObj("Schema", {"schema_id": 1, "fields": PList([])}, label="table-schema")
+    has_schema = c.flip("table-has-schema")
+    h.reg.contracts[f"{TX}:Transaction._resolve_table_schema"] = lambda I, fv, a, k: tab if has_schema else None
+    cur = {}
+
+    def mk(I):
+        f = SObj("DataFile", {"file_path": SStr(I.ctx.fresh_str("path"))}, label="some-file")
+        cur["f"] = f
+        return f
+    files = TheoryObj("symiter", fields={"mk": mk})
+    log = []
+
+    def exists(I, fv, a, k):
+        ok = I.ctx.flip("file-exists")
+        log.append(("exists", a[-1], ok))
+        return ok
+    h.reg.contracts["file_manager:FileManager.validate_file_exists"] = exists
+
+    def vfs(I, fv, a, k):
+        bad = I.ctx.flip("schema-diverges")
+        log.append(("schema", a[1], a[2], bad))
+        if bad:
+            raise PyRaise(SExc("ValueError", origin="schema mismatch", fields={"reject": True}))
+    h.reg.contracts[f"{TX}:Transaction._validate_file_schema"] = vfs
+
+    def inv(I, env, it):
+        if not it.get("after_body"):
+            return []
+        f = it["elem"]
+        mine = log[it["log0"]:]
+        ex = [x for x in mine if x[0] == "exists"]
+        sc = [x for x in mine if x[0] == "schema"]
+        return [("FILE-SCHEMA:an-iteration-completes-only-for-an-existing-file", z3.BoolVal(len(ex) == 1 and ex[0][1] is f.fields["file_path"] and ex[0][2] is True)),
+                ("FILE-SCHEMA:on-a-table-with-a-schema-every-file-is-checked-against-it",
+                 z3.BoolVal((len(sc) == 1 and sc[0][1] is f and sc[0][2] is tab and sc[0][3] is False) if has_schema else len(sc) == 0))]
+
+    def havoc(I, env, it):
+        it["log0"] = len(log)
+    h.reg.loops[f"{TX}:Transaction.append_files"] = {"*": LoopSpec(invariant=inv, havoc=havoc, name="files", skip=["data_file"],
+                                                                   on_break=lambda I, e, it: h.fail("FILE-SCHEMA:every-file-is-visited(no-early-exit)"))}
+    out, val = h.run(f"{TX}:Transaction.append_files", [tx, files])
+    ops = tx.fields["_operations"].items
+    if not active:
+        h.ensure("FILE-SCHEMA:inactive-transaction-raises-and-queues-nothing", out == "raise" and val.cls == "RuntimeError" and not ops and not log)
+        return
+    if out == "raise":
+        h.ensure("FILE-SCHEMA:a-rejected-call-queues-nothing", not ops)
+        h.ensure("FILE-SCHEMA:rejections-are-FileNotFoundError-or-the-schema-check's-ValueError", val.cls in ("FileNotFoundError", "ValueError"), detail=repr(val))
+        return
+    h.ensure("FILE-SCHEMA:accepted-files-queued-exactly-once-as-given",
+             len(ops) == 1 and isinstance(ops[0], PDict) and ops[0].d.get("type") == "append_files" and ops[0].d.get("files") is files and val is tx)
+    h.ensure("FILE-SCHEMA:storage-untouched-by-append_files", not st.events)
+
+
+register(Unit(P, "FILE-SCHEMA/append_files", h_append_files, functions=[f"{TX}:Transaction.append_files"], replay=_replay_c11))
